@@ -1029,6 +1029,11 @@ func (s *Fn) rankLoops() (out []LoopRes) {
 				allL := true
 				for _, p := range lp.latches {
 					fs, dq := s.factsAt(p, len(p.Instrs))
+					// ... when the loop goes round again: the condition of the back edge holds (`for range k` loops
+					// test at the latch)
+					ef, eq := s.edgeFacts(p, lp.header)
+					fs = append(fs, ef...)
+					dq = append(dq, eq...)
 					if !s.entails(fs, dq, le(b, c.at(-1))) {
 						allL = false
 						break
